@@ -498,6 +498,63 @@ def emit_decoders(L, pkgpath, structs, methods, src, stats):
         L.append("  loop 2 [C11,C12] invariant all_decoded: PRESENT && len(this.properties) == N && gItN == G0 + N && $ri + 1 <= N && (forall k Int :: {this.properties[k]} 0 <= k && k < N ==> this.properties[k] == gItRes[G0 + k] && gItRaw[G0 + k] == (ISLIST ? LIST[k] : RAW))")
         L.append('  loop 2 [C11,C12] invariant linked_so_far: forall k Int :: {this.properties[k]} 0 <= k && k <= $ri ==> this.properties[k].parent == asiface(this, "*%s") && this.properties[k].myIdx == k' % T)
         stats["functions"] += 1
+    # Serialize of a slot (functional property, or element of a list): the held representation, written by that
+    # representation's own serializer -- the first held kind in declaration order, else the IRI's string, else
+    # the unknown value kept from decoding
+    for sname, fields in structs.items():
+        slot = Slot(sname, fields)
+        mname = "serialize" if slot.is_iter else "Serialize"
+        if not slot.ok or not slot.kinds or mname not in methods.get(sname, {}) or not dec_in_tier(pkgpath, slot):
+            continue
+        ok_all = True
+        cl = []
+        earlier = []
+        for k in slot.kinds:
+            held = isset(k)
+            prem = " && ".join([held] + ["!(%s)" % e for e in earlier])
+            if not k[1] and k[2].startswith("vocab."):
+                cl.append('[C12] ensures a_held_%s_is_written_by_its_own_serializer: %s ==> result0 == asiface(this.%s.Serialize_0(), "map[string]interface{}") && result1 == this.%s.Serialize_1()' % (k[0][:-len("Member")], prem, k[0], k[0]))
+            else:
+                key = k[0][:-len("Member")].lower()
+                if key not in CODEC:
+                    ok_all = False
+                    break
+                pk, fnn = CODEC[key]
+                fnn = fnn.replace("Deserialize", "Serialize")
+                cl.append("[C12] ensures a_held_%s_is_written_by_its_codec: %s ==> result0 == %s.%s_0(this.%s) && result1 == %s.%s_1(this.%s)" % (key, prem, pk.lower(), fnn, k[0], pk.lower(), fnn, k[0]))
+            earlier.append(held)
+        if not ok_all:
+            stats["skipped_structs"].append(pkgpath + "." + sname + "." + mname)
+            continue
+        none = " && ".join("!(%s)" % e for e in earlier)
+        cl.append('[C12] ensures an_iri_is_written_as_its_string: %s && this.iri != nil ==> result1 == nil && result0.dyn == typetag("string") && unboxstr(result0) == str(this.iri)' % none)
+        cl.append("[C12] ensures otherwise_the_unknown_value_is_written_back: %s && this.iri == nil ==> result1 == nil && result0 == this.unknown" % none)
+        L.append("func (%s.%s).%s" % (pkgpath, sname, mname))
+        L.append("  params this")
+        L.extend("  " + c for c in cl)
+        stats["functions"] += 1
+    # Serialize of a list-valued property: the elements' own serializations, in order; a single one is written bare
+    for sname, fields in structs.items():
+        if [f for f, _ in fields] != ["properties", "alias"] or "Serialize" not in methods.get(sname, {}):
+            continue
+        iname = fields[0][1].replace("[]*", "")
+        if iname not in structs or "serialize" not in methods.get(iname, {}):
+            continue
+        islot = Slot(iname, structs[iname])
+        if not islot.ok or not dec_in_tier(pkgpath, islot):
+            continue
+        L.append("func (%s.%s).Serialize" % (pkgpath, sname))
+        L.append("  params this")
+        L.append("  modifies gItN, gItRaw")
+        L.append("  let G0 = gItN")
+        L.append("  let N = len(this.properties)")
+        sk = "(%s.%s).serialize" % (pkgpath, iname)
+        L.append("  [C12] at call %s#1: assert each_element_in_turn: iterator == this.properties[gItN - G0]" % sk)
+        L.append("  [C12] at call %s#1: ghost gItRaw = gItRaw[gItN := $res0]" % sk)
+        L.append("  [C12] at call %s#1: ghost gItN = gItN + 1" % sk)
+        L.append('  [C12] ensures the_elements_serializations_in_order: result1 == nil ==> gItN == G0 + N && (N == 1 ? result0 == gItRaw[G0] : result0.dyn == typetag("[]interface{}") && len(unboxas(result0, "[]interface{}")) == N && (forall k Int :: {unboxas(result0, "[]interface{}")[k]} 0 <= k && k < N ==> unboxas(result0, "[]interface{}")[k] == gItRaw[G0 + k]))')
+        L.append("  loop 1 [C12] invariant written_so_far: len(s) == $ri + 1 && gItN == G0 + $ri + 1 && $ri + 1 <= N && (arrof(s) == 0 || fresh(arrof(s))) && (forall k Int :: {s[k]} 0 <= k && k <= $ri ==> s[k] == gItRaw[G0 + k])")
+        stats["functions"] += 1
     # Name(): the member name a property is written under -- the "Map" form exactly when a natural-language
     # property holds a language map (an alias prefix is allowed either way)
     key = tuple(pkgpath.split("/")[-2:])
@@ -585,6 +642,9 @@ def main():
             load_ontoprops(repo)
             for pk, fnn in sorted(set(CODEC.values())):
                 L.append("func streams/values/%s.%s" % (pk, fnn))
+                L.append("  params this")
+                L.append("  pure none")
+                L.append("func streams/values/%s.%s" % (pk, fnn.replace("Deserialize", "Serialize")))
                 L.append("  params this")
                 L.append("  pure none")
             L.append("")
